@@ -273,8 +273,15 @@ fn compare<A: Alphabet, C: PositiveLength>(case: &Case, p: &Prepared<A, C>, outs
             return Some(Failure::new(format!("{}:count", o.name), format!("iter() gives {} values, expected {}", o.full.iter().count(), n)));
         }
         if n == 0 {
-            if !o.full.is_empty() && o.full.max_index() != 0 {
-                return Some(Failure::new(format!("{}:count", o.name), "L < M but scores are not empty".to_string()));
+            // "none when L < M": empty on every observable - no position, no row, nothing for max / argmax /
+            // threshold to look at - for a fresh result and for a reused buffer alike
+            for (what, sc) in [("score", &o.full), ("score_into", &o.into)] {
+                if !sc.is_empty() || sc.max_index() != 0 || sc.matrix().rows() != 0 {
+                    return Some(Failure::new(
+                        format!("{}:not-empty-for-L<M", o.name),
+                        format!("{}: L={} < M={} but is_empty() = {}, max_index() = {}, matrix().rows() = {}", what, l, m, sc.is_empty(), sc.max_index(), sc.matrix().rows()),
+                    ));
+                }
             }
             continue;
         }
